@@ -62,7 +62,8 @@ def check(ctx: Ctx) -> None:
     if True:
         trees += [refsem.parse_condition(s) for s in (
             "([1] O [501]) U [1]", "[1] U ([2] O [501])", "([1] U [2]) O ([501] U [502])", "[1][901] U ([2] X [901])",
-            "([1] U [501]) O [2][901]", "([501] U [502]) O [901]", "[1] O ([2] U [1])", "([1] X [2]) U [901]", "[501] O [932]", "[1][932] U [2]", "[501] X [934]", "[1] U [931]")]
+            "([1] U [501]) O [2][901]", "([501] U [502]) O [901]", "[1] O ([2] U [1])", "([1] X [2]) U [901]", "[501] O [932]", "[1][932] U [2]", "[501] X [934]", "[1] U [931]",
+            "[1][987] O [2][987] O [502]", "[1] U [2] O [1] U [3] O [501]", "[1] U ([2] O [501]) U [3]", "[2] U [1] U ([501] X [3])")]
     vfile = "src/ahbicht/content_evaluation/__init__.py"
     for e in trees:
         text = refsem.unparse(e)
